@@ -34,6 +34,7 @@ type RuleIn struct {
 	Sub    string `json:"sub"`
 	Target string `json:"target"` // node name, "" = any callee
 	Nth    int    `json:"nth"`
+	From   int    `json:"from"`
 	Mode   string `json:"mode"`
 	Err    string `json:"err"`
 }
@@ -48,6 +49,7 @@ type Case struct {
 	Via     string      `json:"via"`     // join: the contacted member
 	Rule    *RuleIn     `json:"rule"`    // nil: no fault
 	Maint   string      `json:"maint"`   // "after" (default) | "between": a maintenance round before every attempt of the operation
+	Bulk    int         `json:"bulk"`    // that many further keys are stored through the ring beforehand and read back at the end
 }
 
 type nodeReg struct {
@@ -204,6 +206,16 @@ func (x *runner) run() map[string]any {
 		}
 		acked[k] = v
 	}
+	bulk := map[string]string{}
+	for j := 0; j < c.Bulk; j++ {
+		k := fmt.Sprintf("bulk-%s-%04d", c.Name, j)
+		at := x.r.Nodes[c.Members[j%len(c.Members)]]
+		if err := at.Put(ctx, []byte(k), []byte("b-"+k)); err != nil {
+			out["err"] = fmt.Sprintf("initial put of %s: %v", k, err)
+			return out
+		}
+		bulk[k] = "b-" + k
+	}
 	if ok, _ := x.settle(40); !ok {
 		out["err"] = "initial ring does not settle"
 		return out
@@ -213,7 +225,7 @@ func (x *runner) run() map[string]any {
 
 	// the operation under the fault rule
 	if c.Rule != nil {
-		r := fabric.Rule{Method: c.Rule.Method, Sub: c.Rule.Sub, Nth: c.Rule.Nth, Mode: c.Rule.Mode, Err: c.Rule.Err}
+		r := fabric.Rule{Method: c.Rule.Method, Sub: c.Rule.Sub, Nth: c.Rule.Nth, From: c.Rule.From, Mode: c.Rule.Mode, Err: c.Rule.Err}
 		if c.Rule.Target != "" {
 			r.Target = x.r.NodeID[c.Rule.Target]
 		}
@@ -291,6 +303,29 @@ func (x *runner) run() map[string]any {
 	}
 	out["gets"] = gets
 	out["acked"] = acked
+	if c.Bulk > 0 { // every further key read once, at a live node chosen by its number
+		live := x.liveNames()
+		sort.Strings(live)
+		missing := []string{}
+		j := 0
+		for k, want := range bulk {
+			n := x.r.Nodes[live[j%len(live)]]
+			j++
+			r, ok := within(10*time.Second, func() any {
+				v, err := n.Get(ctx, []byte(k))
+				if err != nil {
+					return "err:" + ring.ErrClass(err)
+				}
+				return "val:" + string(v)
+			})
+			if !ok || r.(string) != "val:"+want {
+				missing = append(missing, fmt.Sprintf("%s=%v", k, r))
+			}
+		}
+		sort.Strings(missing)
+		out["bulk_missing"] = missing
+		out["bulk"] = c.Bulk
+	}
 	return out
 }
 
